@@ -53,6 +53,15 @@ def _variant_cfg(fam, var):
         eng["targets"] = geo[:fam["nt"]]
         if var.get("reverse_targets"):
             eng["targets"] = list(reversed(eng["targets"]))
+    if fam.get("station_keeping"):
+        # a target that keeps station (the routine fires within a few minutes under J2): station keeping belongs to the
+        # truth, so it must act identically with and without estimation / tasking
+        cfg["propagation"]["station_keeping"] = True
+        cfg.setdefault("perturbations", {})["third_bodies"] = []
+        eng["targets"][0] = {"id": 40001, "name": "CIRCULAR-LEO",
+                             "platform": {"type": "spacecraft", "station_keeping": {"routines": ["LEO"]}},
+                             "state": {"type": "coe", "semi_major_axis": 6878.0, "eccentricity": 0.0, "inclination": 45.0,
+                                       "right_ascension": 0.0, "argument_latitude": 0.0}}
     if var.get("drop_target") is not None and len(eng["targets"]) > 1:
         del eng["targets"][var["drop_target"]]
     if var.get("extra_target"):
@@ -219,6 +228,7 @@ def make_families(ctx: Ctx, rng):
         {"extra_target": 3, "events": [{"kind": "impulse", "t0": "step+2", "planned": False},
                                        {"kind": "burn", "t0": "step+2", "t1": "3step", "planned": False}], "truth_only": True},
         {"extra_target": 2, "events": [{"kind": "removeTarget", "t0": "step", "index": -1},
+                                       {"kind": "impulse", "t0": "2step-1", "planned": False},      # right before the family's
                                        {"kind": "impulse", "t0": "2step+1", "planned": False}]},
         # the id of the target that joins was used before by another agent, removed one second before the join epoch
         {"reused_id": True, "events": [{"kind": "removeTarget", "t0": "before", "index": -1}, {"kind": "addTarget", "t0": None}]},
@@ -233,6 +243,10 @@ def make_families(ctx: Ctx, rng):
           {"reverse_targets": True, "drop_target": 0, "decision": "MyopicNaiveGreedyDecision"}]
     fams.append({"model": "special_perturbations", "integrator": "RK45", "step": 300, "start": "2018-12-01T12:00:00",
                  "nsteps": 3 if ctx.quick else 6, "nt": 3, "ns": 2, "events": [], "hetero": True, "variants": hv})
+    fams.append({"model": "special_perturbations", "integrator": "RK45", "step": 300, "start": "2021-03-30T16:00:00",
+                 "nsteps": 6 if ctx.quick else 10, "nt": 2, "ns": 2, "events": [], "station_keeping": True,
+                 "variants": [{}, {"truth_only": True}, {"decision": "MyopicNaiveGreedyDecision", "schedule": "lifo"},
+                              {"out_mult": 2, "split": [2, 4 if ctx.quick else 8]}, {"table_env": True, "env_seed": 3}]})
     for fi, (model, integ, step, start) in enumerate(specs):
         n = 4 if ctx.quick else 6
         for with_impulse in ((False, True) if fi % 2 == 0 or not ctx.quick else (False,)):
@@ -251,7 +265,8 @@ def make_families(ctx: Ctx, rng):
                 for e in var.get("events", []):
                     for key in ("t0", "t1"):
                         if isinstance(e.get(key), str) and e[key] != "before":
-                            e[key] = {"step": step, "step+1": step + 1, "step+2": step + 2, "2step+1": 2 * step + 1, "3step": 3 * step}[e[key]]
+                            e[key] = {"step": step, "step+1": step + 1, "step+2": step + 2, "2step-1": 2 * step - 1, "2step+1": 2 * step + 1,
+                                      "3step": 3 * step}[e[key]]
                     if e.get("t0") == "before":
                         e["t0"] = fam_event_t0 - 1
                     if e.get("t0") is None:
